@@ -84,6 +84,19 @@ fn check_key_token(s: &str, style: &'static str, tok: &str) -> Result<(), String
             return Err(format!("key style {}: ordering / Borrow / Deref of the key parsed from {:?} do not follow its string", style, tok));
         }
     }
+    // every handle on the key prints the same token as the key itself
+    {
+        let mut k2 = k.clone();
+        let shown = k.to_string();
+        let via_mut = k2.as_mut().to_string();
+        if via_mut != shown {
+            return Err(format!("key style {}: KeyMut prints {:?}, the Key prints {:?}", style, via_mut, shown));
+        }
+        let back: Key = shown.parse().map_err(|e: toml_edit::TomlError| format!("key style {}: Display of the parsed key {:?} does not parse: {}", style, shown, e.message()))?;
+        if back.get() != s {
+            return Err(format!("key style {}: Display of the parsed key {:?} decodes to {:?}", style, shown, back.get()));
+        }
+    }
     let docs: [(String, Vec<&str>); 4] = [(format!("{} = 'v'\n", tok), vec![s]), (format!("[{}]\nx = 'v'\n", tok), vec![s, "x"]), (format!("a.{}.b = 'v'", tok), vec!["a", s, "b"]), (format!("k = {{ {} = 'v' }}\n", tok), vec!["k", s])];
     for (doc, path) in docs {
         let d: DocumentMut = doc.parse().map_err(|e: toml_edit::TomlError| format!("key style {}: document {:?} rejected: {}", style, doc, e.message()))?;
